@@ -62,7 +62,11 @@ DIRECTED = [
     ("bad-boolean", "name from t where user_read = 'si'", 2),
     ("bad-function-argument", "rand(x) from t", 2), ("bad-function-argument", "rand(1, y) from t", 2),
     ("bad-function-argument", "format_size(size, '%.2 q') from t", 2), ("bad-function-argument", "format_size(size, '%.99999999999k') from t", 2),
-    ("bad-root", "name from 't/[s' regexp", 2), ("bad-root", "name from 't/(x[' regexp", 2), ("bad-root", "name from 't/*[' rx", 2), ("out-of-range-argument", "substr(name, -100) from t", 0),
+    ("bad-root", "name from 't/[s' regexp", 2), ("bad-root", "name from 't/(x[' regexp", 2), ("bad-root", "name from 't/*[' rx", 2),
+    # a pattern root below a place that cannot be listed (missing, a plain file): reported and counted like any missing root
+    ("unlistable-pattern-root", "name from nosuch/a* rx", 1), ("unlistable-pattern-root", "name from t/a.txt/b? regexp", 1),
+    ("unlistable-pattern-root", "name from 't/nosuch/[ab]x', t rx", 1), ("unlistable-pattern-root", "name from /nosuch/deeper/.* regexp", 1),
+    ("out-of-range-argument", "substr(name, -100) from t", 0),
     ("out-of-range-argument", "substr('abc', -4, 2) from t", 0), ("out-of-range-argument", "substr(name, 100, 5) from t", 0),
     ("cli", "-c", None), ("cli", "--config", None), ("cli", "-c nowhere.toml", None), ("cli", "--nocolor", None),
     ("cli", "-v", None), ("cli", "--help", None), ("cli", "-i", None),
